@@ -99,6 +99,11 @@ impl Partition {
                 messages_count: segment.get_messages_count(),
             };
         }
+        if let Some(cache) = self.cache.as_mut() {
+            // Deleted messages must not be served from the cache any longer.
+            let end_offset = deleted_segment.end_offset;
+            cache.evict_while(|message| message.offset <= end_offset);
+        }
 
         self.segments_count_of_parent_stream
             .fetch_sub(1, Ordering::SeqCst);
